@@ -148,7 +148,8 @@ def build_system(ctx, shape, assume_nonneg=True, sysname="sys", rt="none"):
                 for n, p in enumerate(pc):
                     val = ctx.real("%s.phase[%s]" % (name, p))
                     if kind == "RLoad":
-                        ctx.assume(val > 0)
+                        # set_comp_phases accepts 0 ohm (the constructor does not): only where the shape asks for it
+                        ctx.assume(val >= 0 if nd.get("zero_ohm_ok") else val > 0)
                         ctx.nice(val, [80.0 + 10 * n + idx, 40.0])
                     else:
                         ctx.assume(val >= 0)
@@ -223,9 +224,10 @@ class Wrapped:
             shims.ALLCLOSE_HOOK[0] = hook
         orig_init = sysobj._sys_init
         self._orig_init = orig_init
-        def sym_init(phase=""):
+        def sym_init(*a_, **kw_):  # signature-agnostic: a refactored _sys_init signature must not become a harness crash
+            phase = a_[0] if a_ else kw_.get("phase", "")
             tag = self.tag() if callable(self.tag) else self.tag
-            v0, i0, state = orig_init(phase)
+            v0, i0, state = orig_init(*a_, **kw_)
             names = {idx: nm for nm, idx in sysobj._g.attrs["nodes"].items()}
             from .shims import SymArr
 
@@ -278,7 +280,7 @@ class Wrapped:
             # range (no fork per default limit); limits supplied by the harness are compared for real
             self._old_warns = orig_w = C._Component._solv_get_warns
 
-            def bounded(self_, vi, vo, ii, io, ta, phase, phase_conf):
+            def bounded(self_, vi, vo, ii, io, ta, phase, phase_conf, *xa, **xk):
                 from .props.c09 import quantities, exceeded, DEFAULTS
                 from .ops import Not
 
@@ -286,7 +288,7 @@ class Wrapped:
                 q = quantities(vi, vo, ii, io, pw)
                 for k in self_._get_limits():
                     ctx.assume(Not(exceeded(k, q[k], DEFAULTS[k])))
-                return orig_w(self_, vi, vo, ii, io, ta, phase, phase_conf)
+                return orig_w(self_, vi, vo, ii, io, ta, phase, phase_conf, *xa, **xk)
 
             C._Component._solv_get_warns = bounded
         elif self.stub_warns:
